@@ -186,3 +186,16 @@ Proof. exact (conj proofs.LinkXCorExample.me_used_is_that_instance proofs.LinkXC
 
 Print Assumptions C08_restart_invisible_across_epochs.
 Print Assumptions C08_restart_reports_the_decided_state.
+
+(* ---- root-list order (proofs/AbftRootOrder.v) ----
+   A running instance reads a frame's roots in cache arrival order, a restarted one in key order (validator,
+   event id).  The frame computed by Build / checked by Process is the same for any permutation of the root table
+   (the quorum test counts a validator iff ANY of its roots of the frame forkless-causes the event), so the order
+   cannot make a restart visible.  The seeded "first root per validator only" variant breaks this statement. *)
+From LV Require proofs.AbftRootOrder proofs.AbftFrame.
+Theorem C08_frame_decision_ignores_root_order : forall v, NoDup (v_ids v) -> forall es s roots roots' e co,
+  (forall r, In r roots -> v_exists v (r_val r) = true) ->
+  Permutation.Permutation roots roots' ->
+  proofs.AbftFrame.frame_pure es v s roots e co = proofs.AbftFrame.frame_pure es v s roots' e co.
+Proof. exact proofs.AbftRootOrder.frame_pure_perm. Qed.
+Print Assumptions C08_frame_decision_ignores_root_order.
